@@ -13,13 +13,15 @@ from harness.q import Q, rs
 
 
 def close(a, b):
+    if not (isinstance(a, (int, float)) and isinstance(b, (int, float))):
+        return False      # e.g. the name of an exception raised by the getter
     return abs(a - b) <= 1e-9 * max(1.0, abs(a), abs(b))
 
 
 def run(tier="quick", seed=0, replay=None):
     chk = core.Check("C11", tier, seed, "proof")
     chk.rule = ("window size k in 1..5 (quick) / 1..8 (thorough), every stream length 1..3k+2, values: small integers, dyadic "
-                "fractions, large offsets; compared after every update. Non-trivial: length > k (the buffer wrapped); distinct by hash.")
+                "fractions, large offsets, streams through which a value 1e12..3e18 times larger passes, streams with rejected (raising) items; compared after every update. Non-trivial: length > k (the buffer wrapped); distinct by hash.")
     chk.trusted = ["Lean 4.33.0 kernel", "axioms propext/Classical.choice/Quot.sound",
                    "hand-written model Model/SlidingWindow.lean tied by this correspondence",
                    "np.nanmean/nanvar/nanstd are mean/variance/std of the non-NaN entries (NumPy, outside /repo)"]
@@ -100,6 +102,30 @@ def run(tier="quick", seed=0, replay=None):
                                           f"mean/var/std = {t.mean}/{t.var}/{t.std}, the last {len(last)} values have {m}/{var}/{math.sqrt(var)}",
                                           {"k": k, "vs": [str(x) for x in vs[:i + 1]], "read_every": every})
                             break
+    # a value many orders of magnitude larger than its neighbours passes through the window: once it has left, the statistics are
+    # those of the last k values again (to rounding relative to THEIR magnitude) — nothing of an evicted value may linger
+    for k in range(1, (5 if quick else 8) + 1):
+        for rep in range(chk.count(3, 10)):
+            n = chk.rng.randint(2 * k + 1, 5 * k + 3)
+            vs = [float(chk.rng.choice([1, 1, 2, -3, 0.5, 0.25])) for _ in range(n)]
+            for _ in range(chk.rng.randint(1, 2)):
+                vs[chk.rng.randrange(0, n - k)] = chk.rng.choice([1e17, -3e18, 2.5e15, 1e12])
+            t = SlidingWindowTracker(k)
+            chk.case({"k": k, "outlier_stream": vs}, nontrivial=True, sample=False)
+            chk.stat("streams_with_outliers")
+            for i, v in enumerate(vs):
+                t.update(v)
+                last = vs[max(0, i + 1 - k):i + 1]
+                big = max(abs(x) for x in last)
+                m = math.fsum(last) / len(last)
+                var = math.fsum((x - m) ** 2 for x in last) / len(last)
+                got = (t.mean, t.var, t.std)
+                tol = 1e-9 * max(1.0, big)
+                if not (abs(got[0] - m) <= tol and abs(got[1] - var) <= 1e-9 * max(1.0, big * big) and abs(got[2] - math.sqrt(var)) <= tol):
+                    chk.violation("window-after-outlier", f"SlidingWindowTracker({k}) on {vs[:i + 1]}: after {i + 1} updates mean/var/std = "
+                                  f"{got[0]}/{got[1]}/{got[2]}, the last {len(last)} values {last} have {m}/{var}/{math.sqrt(var)}",
+                                  {"k": k, "vs": [repr(x) for x in vs[:i + 1]]})
+                    break
     # streams in which some supplied items are rejected (the update raises, the caller catches it and goes on): the statistics are
     # those of the last min(n, k) values that were accepted — a rejected item must leave no trace
     for k in range(1, (5 if quick else 8) + 1):
